@@ -1,4 +1,7 @@
 import TaskModel.Vars.Lemmas
+import TaskModel.Vars.Cli
+import TaskModel.Vars.CompileLemmas
+import TaskModel.Vars.EnvPipe
 import TaskModel.Gen.VarLayers
 import TaskModel.Gen.Load
 /-!
@@ -18,16 +21,19 @@ open TaskModel.Vars
 /-- **The code consults the sites in the documented order** (lowest priority first: global
 env, global vars incl. command-line assignments, vars of the include statement, vars of the
 included Taskfile, call vars, task vars; OS environment and special variables before all),
-`sh:` of the included Taskfile's and the task's own vars run in the task directory, which
-is resolved after the global and include layers; command env = global env, then task
+`sh:` of the included Taskfile's and the task's own vars run in the task directory, which is
+resolved each time such a variable needs it (over what is known by then, `~` expanded: fix
+cd73a37); command env = global env, then task
 dotenv (first file wins), then task env; process environment wins unless the experiment. -/
 theorem C10_layers :
     TaskModel.Gen.VarLayers.order =
       [("Compiler.TaskfileEnv", "root"), ("Compiler.TaskfileVars", "root"), ("ast.Task.IncludeVars", "root"),
        ("ast.Task.IncludedTaskfileVars", "task"), ("Call.Vars", "root"), ("ast.Task.Vars", "task")] ∧
     TaskModel.Gen.VarLayers.marks =
-      ["osEnviron", "special", "loop:Compiler.TaskfileEnv", "loop:Compiler.TaskfileVars", "loop:ast.Task.IncludeVars", "taskDirResolved",
+      ["osEnviron", "special", "loop:Compiler.TaskfileEnv", "loop:Compiler.TaskfileVars", "loop:ast.Task.IncludeVars", "taskDirClosure",
        "loop:ast.Task.IncludedTaskfileVars", "returnIfNoTaskOrCall", "loop:Call.Vars", "loop:ast.Task.Vars"] ∧
+    TaskModel.Gen.VarLayers.taskDirPerVariable = true ∧
+    TaskModel.Gen.VarLayers.taskDirExpandsLiteral = true ∧
     TaskModel.Gen.VarLayers.envMerges = ["e.Taskfile.Env", "dotenvEnvs", "origTask.Env"] ∧
     TaskModel.Gen.VarLayers.firstDotenvWins = true ∧
     TaskModel.Gen.VarLayers.appendsToOsEnviron = true ∧
@@ -39,44 +45,63 @@ the including file's merged globals — otherwise a parent global would outrank 
 statement's `vars:` -/
 theorem C10_included_layer_is_included_files_vars : TaskModel.Gen.Load.mergePassesIncludedVars = true := by decide
 
-/-- the model's layer order and task-dir flags are that order -/
-theorem docOrder_matches :
-    docOrder.map (fun s => s.inTaskDir) = TaskModel.Gen.VarLayers.order.map (fun p => p.2 == "task") := by decide
+/-- the loop of `getVariables` each model site stands for -/
+def siteCodeName : Site → String
+  | .taskfileEnv => "Compiler.TaskfileEnv"
+  | .taskfileVars => "Compiler.TaskfileVars"
+  | .includeVars => "ast.Task.IncludeVars"
+  | .includedTaskfileVars => "ast.Task.IncludedTaskfileVars"
+  | .callVars => "Call.Vars"
+  | .taskVars => "ast.Task.Vars"
 
-/-- **Highest-priority definition wins, evaluated over lower priorities.** If the last
-definition of `m` in processing order is `d` (in layer `L`, after the definitions `dpre` of
-that layer), the value every later consumer sees is `d` evaluated over exactly what was
-resolved before it — nothing defined later (higher sites define other names only) and
-nothing else can change it. -/
-theorem C10_last_wins (w : World) (cx : Ctx) (base : Env) (c : Cache)
-    (pre post : List Layer) (L : Layer) (dpre dpost : List (Name × VarDef)) (m : Name) (d : VarDef)
-    (hL : L.defs = dpre ++ (m, d) :: dpost) (hdpost : m ∉ names dpost)
-    (hpost : ∀ l ∈ post, m ∉ names l.defs) :
-    ∃ (s : St) (dir : Str),
-      s = runLayers w cx pre 0 { td := none, env := base, cache := c } ∧
-      get (getVariables w cx base (pre ++ L :: post) c).env m =
-        (evalDef w dir (evalBlock w dir dpre s.env s.cache).1 (evalBlock w dir dpre s.env s.cache).2 d).1 := by
+/-- **the model's layer order IS the code's loop order, site by site** (names and task-dir
+flags of the extracted table; swapping two sites of `docOrder` breaks this) -/
+theorem docOrder_matches :
+    docOrder.map (fun s => (siteCodeName s, if s.inTaskDir then "task" else "root")) = TaskModel.Gen.VarLayers.order := by decide
+
+/-- **Highest-priority definition wins, evaluated over lower priorities** — for the six sites in
+the documented order, the task compiled alone (empty cache).  If the last definition of `m` in
+processing order is `d`, at site `s` after the definitions `dpre` of that site, and no higher site
+defines `m`, the value every consumer sees is `d` evaluated over exactly what the sites below `s`
+and `dpre` resolved (`stateBefore`, then `dpre`), in the directory of that site AT THAT MOMENT: the
+root directory, or for the included-Taskfile and task sites the task's `dir:` rendered over
+those very variables (`siteDirf`). -/
+theorem C10_last_wins (w : World) (cx : Ctx) (base : Env) (defs : Site → Defs) (s : Site)
+    (dpre dpost : Defs) (m : Name) (d : VarDef)
+    (hs : defs s = dpre ++ (m, d) :: dpost) (hdpost : m ∉ names dpost)
+    (hafter : ∀ s' ∈ sitesAfter s, m ∉ names (defs s')) :
+    get (getVariables w cx base (layersOf defs) []).env m =
+      (evalDef w
+        (siteDirf cx s (evalBlock w (siteDirf cx s) dpre (stateBefore w cx base defs s).env (stateBefore w cx base defs s).cache).1)
+        (evalBlock w (siteDirf cx s) dpre (stateBefore w cx base defs s).env (stateBefore w cx base defs s).cache).1
+        (evalBlock w (siteDirf cx s) dpre (stateBefore w cx base defs s).env (stateBefore w cx base defs s).cache).2 d).1 := by
+  rw [layersOf_split defs s]
   simp only [getVariables]
   rw [runLayers_append]
   simp only [runLayers]
-  rw [runLayers_frame _ _ _ _ _ _ hpost]
-  simp only [stepLayer, hL]
-  exact ⟨_, _, rfl, evalBlock_last w _ dpre dpost m d _ _ hdpost⟩
+  have hpost : ∀ l ∈ (sitesAfter s).map (lay defs), m ∉ names l.defs := by
+    intro l hl
+    simp only [List.mem_map] at hl
+    obtain ⟨s', hs', rfl⟩ := hl
+    exact hafter s' hs'
+  rw [runLayers_frame _ _ _ _ _ hpost]
+  simp only [stepLayer, stateBefore, lay, hs]
+  exact evalBlock_last w _ dpre dpost m d _ _ hdpost
 
 /-- a name defined at no site keeps the value of the process environment / special variables -/
 theorem C10_undefined (w : World) (cx : Ctx) (base : Env) (c : Cache) (layers : List Layer) (m : Name)
     (h : ∀ l ∈ layers, m ∉ names l.defs) : get (getVariables w cx base layers c).env m = get base m :=
-  runLayers_frame w cx layers 0 _ m h
+  runLayers_frame w cx layers _ m h
 
 /-- lower-priority sites are irrelevant once a higher one defines the name with a literal:
 the documented order, site by site -/
-theorem C10_literal_priority (w : World) (cx : Ctx) (base : Env) (c : Cache)
-    (pre post : List Layer) (L : Layer) (dpre dpost : List (Name × VarDef)) (m : Name) (v : Str)
-    (hL : L.defs = dpre ++ (m, .lit [.text v]) :: dpost) (hdpost : m ∉ names dpost)
-    (hpost : ∀ l ∈ post, m ∉ names l.defs) :
-    get (getVariables w cx base (pre ++ L :: post) c).env m = v := by
-  obtain ⟨s, dir, _, h⟩ := C10_last_wins w cx base c pre post L dpre dpost m _ hL hdpost hpost
-  rw [h]; simp [evalDef, render]
+theorem C10_literal_priority (w : World) (cx : Ctx) (base : Env) (defs : Site → Defs) (s : Site)
+    (dpre dpost : Defs) (m : Name) (v : Str)
+    (hs : defs s = dpre ++ (m, .lit [.text v]) :: dpost) (hdpost : m ∉ names dpost)
+    (hafter : ∀ s' ∈ sitesAfter s, m ∉ names (defs s')) :
+    get (getVariables w cx base (layersOf defs) []).env m = v := by
+  rw [C10_last_wins w cx base defs s dpre dpost m _ hs hdpost hafter]
+  simp [evalDef, render]
 
 /-! ## environment seen by commands -/
 
@@ -148,6 +173,109 @@ theorem C10_env_taskfile (osEnv globalEnv dotenv tenv : Env) (k : Name) (prec : 
   simp only [hp, if_true, List.not_mem_nil, if_false, taskEnv, List.lookup_append]
   cases tenv.lookup k <;> cases dotenv.lookup k <;> cases globalEnv.lookup k <;> simp
 
+private def shE : Shell := fun cmd _ _ => cmd
+
+/-! ## the environment clause over the real pipeline
+
+`taskEnv` / `commandEnv` above take the three maps as given.  In the code a global `env:`
+entry is templated TWICE — once as the lowest variable layer (what `{{.E}}` gives), once more
+in `compiledTask` over the FINAL variables of the task (what `$E` holds) — and task dotenv /
+task env entries take the second pass only (`Vars.EnvPipe`). -/
+
+theorem lookup_all_static (l : Defs) (h : l.all (fun p => isStatic p.2) = true) (k : Name) (d : VarDef)
+    (hk : l.lookup k = some d) : isStatic d = true := by
+  induction l with
+  | nil => simp at hk
+  | cons p r ih =>
+    obtain ⟨m, e⟩ := p
+    simp only [List.all_cons, Bool.and_eq_true] at h
+    simp only [List.lookup] at hk
+    split at hk
+    · cases hk; exact h.1
+    · exact ih h.2 hk
+
+theorem litVal_tplOver (final : Env) (d : VarDef) (h : isStatic d = true) :
+    litVal (tplOver final d) = valOver final d := by
+  cases d with
+  | lit ps => simp [tplOver, valOver, litVal, render]
+  | refv n => simp [tplOver, valOver, litVal, render]
+  | sh ps ov => simp [isStatic] at h
+
+/-- **C10 (environment, real pipeline).** For entries without `sh:`: a command finds under `k` the
+task `env:` entry rendered over the task's FINAL variables, else the task dotenv entry, else the
+global `env:` entry rendered — a second time — over those final variables, else the process
+value; provided the process environment does not set `k`, or the env-precedence experiment is on. -/
+theorem C10_env_pipeline (w : World) (final : Env) (genv dotenv tenv : Defs) (dir : Str) (c : Cache) (k : Name)
+    (hg : genv.all (fun p => isStatic p.2) = true) (hd : dotenv.all (fun p => isStatic p.2) = true)
+    (ht : tenv.all (fun p => isStatic p.2) = true)
+    (ng : (names genv).Nodup) (nd : (names dotenv).Nodup) (nt : (names tenv).Nodup)
+    (h : w.prec = true ∨ w.osEnv.lookup k = none) :
+    commandSees w (compiledEnv w final genv dotenv tenv dir c).1 k =
+      match tenv.lookup k with
+      | some d => some (valOver final d)
+      | none => match dotenv.lookup k with
+        | some d => some (valOver final d)
+        | none => match genv.lookup k with
+          | some d => some (valOver final d)
+          | none => w.osEnv.lookup k := by
+  have lg := allLit_replaceVarsOver final genv hg
+  have ld := allLit_replaceVarsOver final dotenv hd
+  have lt := allLit_replaceVarsOver final tenv ht
+  have l1 : allLit (mergeDefs [] (replaceVarsOver final genv)) = true := allLit_mergeDefs _ _ rfl lg
+  have l2 := allLit_mergeDefs _ _ l1 ld
+  have l3 : allLit (mergedEnvDefs final genv dotenv tenv) = true := allLit_mergeDefs _ _ l2 lt
+  have n0 : (names ([] : Defs)).Nodup := by simp [names]
+  have ng' : (names (replaceVarsOver final genv)).Nodup := by rw [names_replaceVarsOver]; exact ng
+  have nd' : (names (replaceVarsOver final dotenv)).Nodup := by rw [names_replaceVarsOver]; exact nd
+  have nt' : (names (replaceVarsOver final tenv)).Nodup := by rw [names_replaceVarsOver]; exact nt
+  have n1 := nodup_names_mergeDefs _ _ n0 ng'
+  have n2 := nodup_names_mergeDefs _ _ n1 nd'
+  have hm : (mergedEnvDefs final genv dotenv tenv).lookup k =
+      match tenv.lookup k with
+      | some d => some (tplOver final d)
+      | none => match dotenv.lookup k with
+        | some d => some (tplOver final d)
+        | none => (genv.lookup k).map (tplOver final) := by
+    simp only [mergedEnvDefs]
+    rw [lookup_mergeDefs _ _ n2 nt', lookup_mergeDefs _ _ n1 nd', lookup_mergeDefs _ _ n0 ng']
+    simp only [lookup_replaceVarsOver]
+    cases tenv.lookup k <;> cases dotenv.lookup k <;> cases genv.lookup k <;> simp
+  simp only [commandSees, compiledEnv, runEnvSh_allLit w dir _ _ c l3, commandEnv, List.lookup_append]
+  rw [lookup_filter_key _ (fun k => w.prec || (w.osEnv.lookup k).isNone), lookup_dedupKeys]
+  have hp : (w.prec || (w.osEnv.lookup k).isNone) = true := by
+    rcases h with h | h <;> simp [h]
+  simp only [hp, if_true, List.not_mem_nil, if_false, lookup_staticOf _ l3, hm]
+  cases htk : tenv.lookup k with
+  | some d => simp [litVal_tplOver final d (lookup_all_static tenv ht k d htk)]
+  | none =>
+    cases hdk : dotenv.lookup k with
+    | some d => simp [litVal_tplOver final d (lookup_all_static dotenv hd k d hdk)]
+    | none =>
+      cases hgk : genv.lookup k with
+      | some d => simp [litVal_tplOver final d (lookup_all_static genv hg k d hgk)]
+      | none => simp
+
+/-- the two passes over a global `env:` entry agree when every name its template refers to has, at the
+end, the value it had when the entry was rendered as a variable … -/
+theorem C10_env_two_passes_agree (atEntry final : Env) (ps : List Part)
+    (h : ∀ n, Part.ref n ∈ ps → get final n = get atEntry n) : render final ps = render atEntry ps := by
+  induction ps with
+  | nil => rfl
+  | cons p r ih =>
+    cases p with
+    | text t => simp only [render]; rw [ih (fun n hn => h n (List.mem_cons_of_mem _ hn))]
+    | ref n => simp only [render]; rw [h n List.mem_cons_self, ih (fun n hn => h n (List.mem_cons_of_mem _ hn))]
+
+/- … and differ otherwise: `env: {E: 'e-{{.V}}'}`, `vars: {V: x}` — `{{.E}}` is `e-` (the variable layer comes
+before the global vars), `$E` is `e-x`; a task-level `V` changes `$E` again, not `{{.E}}` -/
+example :
+    let w : World := ⟨shE, [], false⟩
+    let genv : Defs := [(0, .lit [.text [101, 45], .ref 1])]
+    let defs : Site → Defs := fun s => match s with
+      | .taskfileEnv => genv | .taskfileVars => [(1, .lit [.text [120]])] | .taskVars => [(1, .lit [.text [121]])] | _ => []
+    let final := (getVariables w ⟨[], [], []⟩ [] (layersOf defs) []).env
+    (get final 0, commandSees w (compiledEnv w final genv [] [] [] []).1 0) = ([101, 45], some [101, 45, 121]) := by decide
+
 /-! ## non-vacuity -/
 private def sh0 : Shell := fun cmd dir _ => cmd ++ [64] ++ dir
 private def defs0 : Site → List (Name × VarDef)
@@ -156,7 +284,7 @@ private def defs0 : Site → List (Name × VarDef)
   | .callVars => [(2, .lit [.text [21], .ref 1])]
   | .taskVars => [(3, .sh [.text [5], .ref 2] none)]
   | _ => []
-example : let e := (getVariables ⟨sh0, []⟩ ⟨[1], [], 3⟩ [] (layersOf defs0) []).env
+example : let e := (getVariables ⟨sh0, [], false⟩ ⟨[1], [], []⟩ [] (layersOf defs0) []).env
     (get e 1, get e 2, get e 3) = ([11], [21, 11], [5, 21, 11, 64, 1]) := by decide
 
 /-! ## `sh:` env entries see the Taskfile's env -/
@@ -179,5 +307,250 @@ example : envChain [] [(0, .read 9)] [(2, .read 3), (3, .lit [119]), (4, .read 0
     [(0, []), (3, [119]), (2, [119]), (4, [])] := by decide                                       -- later TASK literal: seen
 example : envChain [] [(0, .lit [118])] [(1, .read 0), (2, .read 1)] = [(0, [118]), (1, [118]), (2, [118])] := by decide
 example : envChain [(0, [111])] [(0, .lit [118])] [(1, .read 0)] = [(0, [118]), (1, [111])] := by decide   -- the process value wins
+
+/-! ## special variables: "available unless overridden"
+
+`Vars.special` is a definition of the model (it used to be harness input); the table of
+`getSpecialVars`, the POST layer of `compiledTask`, the `MATCH` binding of `GetTask`, the
+command-line layer of `cmd/task` and `Vars.Merge` are pinned by `Gen.VarLayers`. -/
+
+theorem special_table_matches :
+    TaskModel.Gen.VarLayers.specialVars =
+      [("ALIAS", "Call.Task"), ("ROOT_DIR", "Compiler.Dir"),
+       ("ROOT_TASKFILE", "filepathext.SmartJoin(Compiler.Dir, Compiler.Entrypoint)"),
+       ("TASK", "ast.Task.Task"), ("TASKFILE", "ast.Task.Location.Taskfile"),
+       ("TASKFILE_DIR", "filepath.Dir(ast.Task.Location.Taskfile)"),
+       ("TASK_DIR", "filepathext.SmartJoin(Compiler.Dir, ast.Task.Dir)"),
+       ("TASK_EXE", "filepath.ToSlash(os.Args[0])"), ("TASK_VERSION", "version.GetVersion()"),
+       ("USER_WORKING_DIR", "Compiler.UserWorkingDir")] ∧
+    TaskModel.Gen.VarLayers.postLayerKey = "strings.ToUpper(‹checker›.Kind())" ∧
+    TaskModel.Gen.VarLayers.postLayerAfterLayers = true ∧
+    TaskModel.Gen.VarLayers.matchBoundWhen = "name-or-wildcard-match" ∧
+    TaskModel.Gen.VarLayers.cliLayer =
+      ["set:CLI_ARGS", "set:CLI_FORCE", "set:CLI_SILENT", "set:CLI_VERBOSE", "set:CLI_OFFLINE", "merge-into:‹executor›.Taskfile.Vars"] ∧
+    TaskModel.Gen.VarLayers.mergeSetsInOrder = true := by decide
+
+/-- the model's special variables are exactly the names of that table -/
+theorem special_names (tc : TaskCtx) :
+    (special tc).map Prod.fst = [nTASK_EXE, nROOT_TASKFILE, nROOT_DIR, nUSER_WORKING_DIR, nTASK_VERSION, nTASK, nTASK_DIR,
+      nTASKFILE, nTASKFILE_DIR, nALIAS] := rfl
+
+theorem get_postLayer_other (fp : Option (Name × Str)) (e : Env) (n : Name) (h : ∀ p, fp = some p → p.1 ≠ n) :
+    get (postLayer fp e) n = get e n := by
+  cases fp with
+  | none => rfl
+  | some p => exact get_set_other e p.1 n p.2 (fun hn => h p rfl hn.symm)
+
+/-- **available**: a special variable that no site defines (and that is not the task's POST-layer
+name) has its special value in every template of the task — whatever the process environment holds -/
+theorem C10_special_available (w : World) (home : Str) (cd : CallDesc) (n : Name) (v : Str)
+    (hsp : (special cd.tc).lookup n = some v)
+    (hundef : ∀ s, n ∉ names (siteDefs w.osEnv cd s)) (hfp : ∀ p, cd.fp = some p → p.1 ≠ n) :
+    get (compile w home cd []).vars n = v := by
+  simp only [compile]
+  rw [get_postLayer_other _ _ _ hfp, C10_undefined]
+  · simp [TaskModel.Vars.get, baseEnv, List.lookup_append, hsp]
+  · intro l hl
+    simp only [layersOf, List.mem_map] at hl
+    obtain ⟨s, _, rfl⟩ := hl
+    exact hundef s
+
+/-- **unless overridden**: a literal definition at any site — with no higher site defining the name —
+wins over the special value (and over everything below) -/
+theorem C10_special_overridden (w : World) (home : Str) (cd : CallDesc) (s : Site) (dpre dpost : Defs) (n : Name) (v : Str)
+    (hs : siteDefs w.osEnv cd s = dpre ++ (n, .lit [.text v]) :: dpost) (hdpost : n ∉ names dpost)
+    (hafter : ∀ s' ∈ sitesAfter s, n ∉ names (siteDefs w.osEnv cd s'))
+    (hfp : ∀ p, cd.fp = some p → p.1 ≠ n) :
+    get (compile w home cd []).vars n = v := by
+  simp only [compile]
+  rw [get_postLayer_other _ _ _ hfp]
+  exact C10_literal_priority w (ctxOf cd.tc home) _ _ s dpre dpost n v hs hdpost hafter
+
+/-- the clause at full strength: a definition at a site always wins over what Task provides itself -/
+def C10_special_unless_overridden_full : Prop :=
+  ∀ (w : World) (home : Str) (cd : CallDesc) (s : Site) (dpre dpost : Defs) (n : Name) (v : Str),
+    siteDefs w.osEnv cd s = dpre ++ (n, .lit [.text v]) :: dpost → n ∉ names dpost →
+    (∀ s' ∈ sitesAfter s, n ∉ names (siteDefs w.osEnv cd s')) →
+    get (compile w home cd []).vars n = v
+
+/-- the POST layer wins whatever the sites define: `compiledTask` sets `CHECKSUM` / `TIMESTAMP` after all layers -/
+theorem C10_post_layer_wins (w : World) (home : Str) (cd : CallDesc) (n : Name) (v : Str) (h : cd.fp = some (n, v)) :
+    get (compile w home cd []).vars n = v := by
+  simp [compile, postLayer, h]
+
+private def tc0 : TaskCtx := { rootDir := [47, 114], entrypoint := [], userWorkingDir := [47, 114], taskName := [116], rawDir := [],
+                               dirTpl := [], taskfile := [47, 114, 47, 84], alias := [116] }
+private def shN : Shell := fun cmd _ _ => cmd
+
+/-- **false of the code as it is** (open finding `C10-fingerprint-vars-override-user-definition`):
+`vars: {CHECKSUM: mine}` in a task with sources prints the hash -/
+theorem C10_special_unless_overridden_counterexample : ¬ C10_special_unless_overridden_full := by
+  intro h
+  have := h ⟨shN, [], false⟩ []
+    { tc := tc0, genv := [], files := [⟨[], [], []⟩], level := 0, callVars := [],
+      taskVars := [(nCHECKSUM, .lit [.text [109]])], fp := some (nCHECKSUM, [76]) }
+    .taskVars [] [] nCHECKSUM [109] rfl (by decide) (by decide)
+  revert this
+  decide
+
+/-- … and true for every name but the task's POST-layer name (`C10_special_overridden`) -/
+theorem C10_special_unless_overridden_partial (w : World) (home : Str) (cd : CallDesc) (s : Site) (dpre dpost : Defs) (n : Name) (v : Str)
+    (hfp : ∀ p, cd.fp = some p → p.1 ≠ n)
+    (hs : siteDefs w.osEnv cd s = dpre ++ (n, .lit [.text v]) :: dpost) (hdpost : n ∉ names dpost)
+    (hafter : ∀ s' ∈ sitesAfter s, n ∉ names (siteDefs w.osEnv cd s')) :
+    get (compile w home cd []).vars n = v :=
+  C10_special_overridden w home cd s dpre dpost n v hs hdpost hafter hfp
+
+/- non-vacuity: TASK and TASK_DIR of a root task with a templated dir (the RAW text is joined: the quirk),
+a global that overrides TASK, ALIAS of a call through an alias -/
+private def tc1 : TaskCtx := { tc0 with rawDir := [123, 123, 46, 86, 125, 125], dirTpl := [.ref 6], alias := [97] }
+private def cd1 : CallDesc := { tc := tc1, genv := [], files := [⟨[], [], [(6, .lit [.text [115]]), (nTASK, .lit [.text [117]])]⟩],
+                                level := 0, callVars := [], taskVars := [(1, .sh [.text [75]] none)] }
+example : let r := compile ⟨shN, [], false⟩ [] cd1 []
+    (get r.vars nTASK, get r.vars nTASK_DIR, get r.vars nALIAS, r.dir) =
+      ([117], [47, 114, 47, 123, 123, 46, 86, 125, 125], [97], [47, 114, 47, 115]) := by decide
+
+/-! ## the seventh site: globals of other files, merged into the root's
+
+`Taskfile.Merge` merges the `vars:` of every included file into the root file's globals, in
+the canonical merge order of C09, later wins, an overridden name keeps its position.  The
+layer `Compiler.TaskfileVars` of EVERY task is that merged map (`globalLayer`).  Which
+documented order holds:
+
+* for a task of an INCLUDED file (long-form include) the documented chain holds as written:
+  task vars > call vars > variables of the included Taskfile (`includedVarsFor`: the merged
+  variables of the outermost included file on its path) > vars of the include statements
+  (`includeVarsFor`: inner statement first, outer ones over it) > global vars > environment;
+* for a ROOT task the chain is task vars > call vars > global vars > environment, where
+  "global vars" are NOT the root file's own `vars:` alone: a same-named global of an included
+  file replaces the root's value (`C10_root_task_sees_included_global`) — modelled as what
+  the code does (audit B-C10-incl-global), the property names no site for it. -/
+
+theorem C10_root_task_layers (os : Env) (cd : CallDesc) (h : cd.level = 0) :
+    siteDefs os cd .includeVars = [] ∧ siteDefs os cd .includedTaskfileVars = [] := by
+  simp [siteDefs, includeVarsFor, includedVarsFor, h]
+
+/-- the merged globals of a root file with one included file, by name: the included file's definition wins -/
+theorem C10_global_merge_lookup (root inc : FileDesc) (hr : (names root.vars).Nodup) (hi : (names inc.vars).Nodup) (x : Name) :
+    (globalLayer [root, inc] []).lookup x =
+      match (withDir inc.incDir inc.vars).lookup x with
+      | some d => some d
+      | none => root.vars.lookup x := by
+  simp only [globalLayer, taskfileVars, mergedUp]
+  have : mergeDefs (mergeDefs root.vars (withDir inc.incDir inc.vars)) [] = mergeDefs root.vars (withDir inc.incDir inc.vars) := rfl
+  rw [this]
+  exact lookup_mergeDefs _ _ hr (by rw [names_withDir]; exact hi) x
+
+/-- **A ROOT task sees the included file's value of a same-named global.** -/
+theorem C10_root_task_sees_included_global (w : World) (home : Str) (cd : CallDesc) (root inc : FileDesc) (x : Name) (b : Str)
+    (hfiles : cd.files = [root, inc]) (hcli : cd.cli = []) (hlevel : cd.level = 0)
+    (hr : (names root.vars).Nodup) (hi : (names inc.vars).Nodup)
+    (hinc : inc.vars.lookup x = some (.lit [.text b]))
+    (hcall : x ∉ names (callLayer cd.callVars cd.wildcards)) (htask : x ∉ names cd.taskVars)
+    (hfp : ∀ p, cd.fp = some p → p.1 ≠ x) :
+    get (compile w home cd []).vars x = b := by
+  have hlk : (globalLayer [root, inc] []).lookup x = some (.lit [.text b]) := by
+    rw [C10_global_merge_lookup root inc hr hi x, lookup_withDir_lit _ _ _ _ hinc]
+  have hnd : (names (globalLayer [root, inc] [])).Nodup := by
+    simp only [globalLayer, taskfileVars, mergedUp]
+    exact nodup_names_mergeDefs _ _ (nodup_names_mergeDefs _ _ hr (by rw [names_withDir]; exact hi)) (by simp [names])
+  obtain ⟨pre, post, hsplit, hpost⟩ := lookup_split _ x _ hnd hlk
+  apply C10_special_overridden w home cd .taskfileVars pre post x b
+  · simp only [siteDefs, hfiles, hcli]; exact hsplit
+  · exact hpost
+  · intro s' hs'
+    have hroot := C10_root_task_layers w.osEnv cd hlevel
+    simp only [sitesAfter, List.mem_cons, List.mem_nil_iff, or_false] at hs'
+    rcases hs' with rfl | rfl | rfl | rfl
+    · rw [hroot.1]; simp [names]
+    · rw [hroot.2]; simp [names]
+    · exact hcall
+    · exact htask
+  · exact hfp
+
+/- non-vacuity (the audit's reproduction): root `vars: {X: root, R: 'r-{{.X}}'}`, included `vars: {X: from-a}` —
+the root task sees `from-a`, also through `R` (the overriding definition keeps the root's position) -/
+private def fRoot : FileDesc := ⟨[], [], [(0, .lit [.text [114]]), (1, .lit [.text [114, 45], .ref 0])]⟩
+private def fInc : FileDesc := ⟨[47, 114, 47, 97], [], [(0, .lit [.text [97]])]⟩
+example : let r := compile ⟨shN, [], false⟩ [] { tc := tc0, genv := [], files := [fRoot, fInc], level := 0, callVars := [], taskVars := [] } []
+    (get r.vars 0, get r.vars 1) = ([97], [114, 45, 97]) := by decide
+
+/-! ## the command-line layer ("global vars (including NAME=value command-line assignments)")
+
+`cmd/task` merges the assignments and `CLI_ARGS` / `CLI_*` into the Taskfile's globals AFTER
+the declared ones (`Vars.Merge`: override keeps the position, a new name is appended).  The
+property puts the assignments INTO the global level; within one level definitions are
+evaluated in order, so a declared global that refers to an assigned name sees the assigned
+value exactly when that name stands before it in the merged layer — i.e. when the name is
+ALSO declared before it.  For `NAME=value` this is the modelled behaviour (same level, order
+matters, as for any two globals).  For `CLI_ARGS` / `CLI_*`, which the documentation lists as
+special variables ("available unless overridden"), it contradicts the property: they are not
+available to declared globals nor to the global `env:` (open finding
+`C10-cli-specials-defined-after-globals`, monitor `vars.climon`). -/
+
+/-- where the merged layer puts a declared entry the command line does not assign: the
+entries before it are exactly the declared ones before it (with command-line values where
+assigned), everything the command line adds comes after it -/
+theorem C10_cli_merged_split (dpre dpost cli : Defs) (g : Name) (d : VarDef)
+    (hnd : (names (dpre ++ (g, d) :: dpost)).Nodup) (hcli : (names cli).Nodup) (hg : g ∉ names cli) :
+    ∃ pre post, taskfileVars (dpre ++ (g, d) :: dpost) cli = pre ++ (g, d) :: post ∧
+      names pre = names dpre ∧ g ∉ names post ∧ pre = dpre.map (overrideBy cli) := by
+  refine ⟨dpre.map (overrideBy cli), dpost.map (overrideBy cli) ++ cli.filter (fun p => p.1 ∉ names (dpre ++ (g, d) :: dpost)), ?_, ?_, ?_, rfl⟩
+  · rw [taskfileVars, mergeDefs_char cli _ hnd hcli]
+    simp only [List.map_append, List.map_cons, List.append_assoc, List.cons_append]
+    have : overrideBy cli (g, d) = (g, d) := by simp only [overrideBy, lookup_none_of_not_mem cli g hg]
+    rw [this]
+  · exact names_map_same _ _ (overrideBy_fst cli)
+  · simp only [names, List.map_append, List.mem_append, not_or]
+    constructor
+    · have h1 : List.map Prod.fst (List.map (overrideBy cli) dpost) = List.map Prod.fst dpost :=
+        names_map_same dpost _ (overrideBy_fst cli)
+      rw [h1]
+      simp only [names, List.map_append, List.map_cons] at hnd
+      have := (List.nodup_append.mp hnd).2.1
+      exact (List.nodup_cons.mp this).1
+    · intro hmem
+      apply hg
+      simp only [List.mem_map] at hmem
+      obtain ⟨q, hq, hqg⟩ := hmem
+      rw [← hqg]
+      exact List.mem_map_of_mem (List.mem_filter.mp hq).1
+
+/-- **C10, command-line layer.**  A declared global `g: '{{.x}}'` where `x` is assigned on the
+command line (`x=v`, or one of the `CLI_*` names) gets `v` iff `x` stands before `g` in the
+merged layer, i.e. iff `x` is also declared before `g`; otherwise it gets what the lower
+layers (process environment, special variables) hold for `x` — nothing, usually. -/
+theorem C10_cli_ref_iff (w : World) (dir : Env → Str) (base : Env) (c : Cache) (dpre dpost cli : Defs) (g x : Name) (v : Str)
+    (hnd : (names (dpre ++ (g, .lit [.ref x]) :: dpost)).Nodup) (hcli : (names cli).Nodup)
+    (hg : g ∉ names cli) (hx : cli.lookup x = some (.lit [.text v])) :
+    get (evalBlock w dir (taskfileVars (dpre ++ (g, .lit [.ref x]) :: dpost) cli) base c).1 g =
+      if x ∈ names dpre then v else get base x := by
+  obtain ⟨pre, post, hsplit, hnames, hgpost, hpre⟩ := C10_cli_merged_split dpre dpost cli g _ hnd hcli hg
+  rw [hsplit, evalBlock_last w dir pre post g _ base c hgpost]
+  simp only [evalDef, render, List.append_nil]
+  have hpnd : (names pre).Nodup := by
+    rw [hnames]
+    simp only [names, List.map_append] at hnd
+    exact (List.nodup_append.mp hnd).1
+  split
+  · rename_i hmem
+    apply evalBlock_lookup_lit w dir pre x v base c hpnd
+    rw [hpre]
+    exact lookup_map_overrideBy dpre cli x _ hmem hx
+  · rename_i hmem
+    exact evalBlock_frame w dir pre base c x (by rw [hnames]; exact hmem)
+
+/- non-vacuity: `vars: {Y: '{{.X}}'}` with `task t X=1` — Y sees nothing; with X also declared
+before Y it sees 1; declared after Y: nothing (but X itself is 1) -/
+private def shC : Shell := fun cmd _ _ => cmd
+example : get (evalBlock ⟨shC, [], false⟩ (fun _ => []) (taskfileVars [(1, .lit [.ref 0])] (cliLayer [(0, [.text [49]])] [] {})) [] []).1 1 = [] := by decide
+example : get (evalBlock ⟨shC, [], false⟩ (fun _ => []) (taskfileVars [(0, .lit [.text [100]]), (1, .lit [.ref 0])] (cliLayer [(0, [.text [49]])] [] {})) [] []).1 1 = [49] := by decide
+example : let e := (evalBlock ⟨shC, [], false⟩ (fun _ => []) (taskfileVars [(1, .lit [.ref 0]), (0, .lit [.text [100]])] (cliLayer [(0, [.text [49]])] [] {})) [] []).1
+    (get e 1, get e 0) = ([], [49]) := by decide
+-- a global alias of CLI_ARGS is empty; a task-level reference (any later layer) sees it
+example : let e := (evalBlock ⟨shC, [], false⟩ (fun _ => []) (taskfileVars [(1, .lit [.ref nCLI_ARGS])] (cliLayer [] [97, 32, 98] {})) [] []).1
+    (get e 1, get e nCLI_ARGS) = ([], [97, 32, 98]) := by decide
+example : (names (cliLayer [(0, [.text [49]]), (5, []), (0, [.text [50]])] [] {})).Nodup ∧
+    (cliLayer [(0, [.text [49]]), (5, []), (0, [.text [50]])] [] {}).lookup 0 = some (.lit [.text [50]]) := by decide
 
 end Props.C10
